@@ -552,7 +552,10 @@ impl PtraceDumper {
         // Round the stack pointer to the nearest page, this will cause us to
         // capture data below the stack pointer which might still be relevant.
         let mut stack_pointer = int_stack_pointer & !(self.page_size - 1);
-        let mut mapping = self.find_mapping(stack_pointer);
+        // Look the address up in the ranges the kernel reports: the inaccessible range that
+        // follows an executable file mapping is folded into that module's extent, and a thread's
+        // guard page directly above a library would otherwise pass for a part of the library.
+        let mut mapping = self.find_mapping_no_bias(stack_pointer);
 
         // The guard page has been 1 MiB in size since kernel 4.12, older
         // kernels used a 4 KiB one instead. Note the saturating add, as 32-bit
@@ -570,7 +573,7 @@ impl PtraceDumper {
                 break;
             };
             stack_pointer = next_page;
-            mapping = self.find_mapping(stack_pointer);
+            mapping = self.find_mapping_no_bias(stack_pointer);
         }
 
         mapping
@@ -581,7 +584,7 @@ impl PtraceDumper {
                     mapping.start_address
                 };
 
-                let stack_len = mapping.size - (valid_stack_pointer - mapping.start_address);
+                let stack_len = mapping.system_mapping_info.end_address - valid_stack_pointer;
                 (valid_stack_pointer, stack_len)
             })
             .ok_or(DumperError::NoStackPointerMapping)
